@@ -19,6 +19,7 @@ mod c11l2;
 mod c05l2;
 mod c03l2;
 mod c04h;
+mod c15l2;
 mod c19;
 mod consts;
 mod core;
@@ -105,6 +106,7 @@ fn main() {
         "c05l2" => c05l2::run(&a),
         "c03l2" => c03l2::run(&a),
         "c04h" => c04h::run(&a),
+        "c15l2" => c15l2::run(&a),
         "c19" => c19::run(&a),
         "c06core" => coregen::run(&a, "C06", "C06core", &["c06"]),
         "c18core" => coregen::run(&a, "C18", "CoreMix", &["c18"]),
